@@ -68,6 +68,88 @@ func extractRaw(p *Pkg) {
 	p.factCmp("rawValidVersion", "ipv4.isValid", "ipVersion(b)")
 	p.factCmp("rawReadProto", "BroadcastRawUDPConn.ReadFrom", "ipHdr.transportProtocol()")
 	p.factCmp("rawReadZero", "BroadcastRawUDPConn.ReadFrom", "n")
+	// Writes keep no per-connection state: WriteTo assigns nothing reachable
+	// from its receiver, the connection has its two fields (PacketConn,
+	// boundAddr) and udp4pkt takes (packet, dest, src) and makes its own buffer.
+	rawStateless(p)
+}
+
+func rawStateless(p *Pkg) {
+	fd := p.funcDecl("BroadcastRawUDPConn.WriteTo")
+	if fd == nil || fd.Recv == nil || len(fd.Recv.List) != 1 || len(fd.Recv.List[0].Names) != 1 {
+		missT("rawWriteToAssignsReceiver", "Bool")
+	} else {
+		recv := fd.Recv.List[0].Names[0].Name
+		rooted := func(e ast.Expr) bool {
+			for {
+				switch x := e.(type) {
+				case *ast.SelectorExpr:
+					e = x.X
+				case *ast.IndexExpr:
+					e = x.X
+				case *ast.SliceExpr:
+					e = x.X
+				case *ast.StarExpr:
+					e = x.X
+				case *ast.ParenExpr:
+					e = x.X
+				case *ast.Ident:
+					return x.Name == recv
+				default:
+					return false
+				}
+			}
+		}
+		assigns := false
+		ast.Inspect(fd, func(n ast.Node) bool {
+			switch x := n.(type) {
+			case *ast.AssignStmt:
+				for _, l := range x.Lhs {
+					if _, isId := l.(*ast.Ident); !isId && rooted(l) {
+						assigns = true
+					}
+				}
+			case *ast.IncDecStmt:
+				if _, isId := x.X.(*ast.Ident); !isId && rooted(x.X) {
+					assigns = true
+				}
+			}
+			return true
+		})
+		facts.Bools["rawWriteToAssignsReceiver"] = assigns
+	}
+	if obj := p.Types.Scope().Lookup("BroadcastRawUDPConn"); obj != nil {
+		if st, ok := obj.Type().Underlying().(*types.Struct); ok {
+			facts.Nat["rawConnFields"] = int64(st.NumFields())
+		} else {
+			miss("rawConnFields")
+		}
+	} else {
+		miss("rawConnFields")
+	}
+	if fd := p.funcDecl("udp4pkt"); fd != nil {
+		n := 0
+		for _, f := range fd.Type.Params.List {
+			if len(f.Names) == 0 {
+				n++
+			}
+			n += len(f.Names)
+		}
+		facts.Nat["rawUdp4pktParams"] = int64(n)
+		makes := false
+		ast.Inspect(fd, func(nd ast.Node) bool {
+			if ce, ok := nd.(*ast.CallExpr); ok {
+				if id, ok := ce.Fun.(*ast.Ident); ok && id.Name == "make" {
+					makes = true
+				}
+			}
+			return true
+		})
+		facts.Bools["rawUdp4pktMakesBuffer"] = makes
+	} else {
+		miss("rawUdp4pktParams")
+		missT("rawUdp4pktMakesBuffer", "Bool")
+	}
 }
 
 // factCompositeField: inside fn, the value of `Field:` in a composite literal
